@@ -1,0 +1,67 @@
+//go:build verif
+
+package routing
+
+// Hooks for the out-of-tree verification harness (build tag verif), add-only: the per-bundle
+// `sent` bookkeeping of the routing algorithms and PRoPHET's peer predictabilities.
+
+import (
+	"github.com/dtn7/dtn7-go/pkg/bpv7"
+)
+
+func verifInner(a Algorithm) Algorithm {
+	if snm, ok := a.(*SensorNetworkMuleRouting); ok {
+		return verifInner(snm.algorithm)
+	}
+	return a
+}
+
+// VerifSentList returns the list of peers the active algorithm believes to have the bundle:
+// the store property "routing/<algo>/sent" (epidemic, prophet, dtlsr) or the spray metadata.
+// known is false if the algorithm has no entry for this bundle.
+func (c *Core) VerifSentList(bid bpv7.BundleID) (eids []bpv7.EndpointID, known bool) {
+	fromStore := func(algo string) ([]bpv7.EndpointID, bool) {
+		bi, err := c.store.QueryId(bid)
+		if err != nil {
+			return nil, false
+		}
+		l, _ := bi.Properties["routing/"+algo+"/sent"].([]bpv7.EndpointID)
+		return append([]bpv7.EndpointID(nil), l...), true
+	}
+	switch a := verifInner(c.routing).(type) {
+	case *EpidemicRouting:
+		return fromStore("epidemic")
+	case *Prophet:
+		return fromStore("prophet")
+	case *DTLSR:
+		return fromStore("dtlsr")
+	case *SprayAndWait:
+		a.dataMutex.RLock()
+		defer a.dataMutex.RUnlock()
+		md, ok := a.bundleData[bid]
+		return append([]bpv7.EndpointID(nil), md.sent...), ok
+	case *BinarySpray:
+		a.dataMutex.RLock()
+		defer a.dataMutex.RUnlock()
+		md, ok := a.bundleData[bid]
+		return append([]bpv7.EndpointID(nil), md.sent...), ok
+	}
+	return nil, false
+}
+
+// VerifProphetSetPeerPred sets what PRoPHET believes to be peer's delivery predictability for dest.
+func (c *Core) VerifProphetSetPeerPred(peer, dest bpv7.EndpointID, p float64) bool {
+	prophet, ok := verifInner(c.routing).(*Prophet)
+	if !ok {
+		return false
+	}
+	prophet.dataMutex.Lock()
+	defer prophet.dataMutex.Unlock()
+	m, ok := prophet.peerPredictabilities[peer]
+	if !ok {
+		m = make(map[bpv7.EndpointID]float64)
+		prophet.peerPredictabilities[peer] = m
+	}
+	m[dest] = p
+	return true
+}
